@@ -194,7 +194,7 @@ Definition get_prior (current high : nat) (flags : list bool) : res nat :=
 
 (* for (i = 0; i < len; ++i) if (flags[i] == want) result.emplace_back(path[i]);
    (SimplifyPath keeps !flags[i], RamerDouglasPeucker keeps flags[i]) *)
-Fixpoint collect (want : bool) (n i : nat) (p : path) (flags : list bool) : res path :=
+Fixpoint collect {A} (want : bool) (n i : nat) (p : list A) (flags : list bool) : res (list A) :=
   match n with
   | O => Ok []
   | S n' =>
@@ -205,8 +205,10 @@ Fixpoint collect (want : bool) (n i : nat) (p : path) (flags : list bool) : res 
 
 (* ------------------------------------------------------------------ SimplifyPath / RDP, generic in the distance type *)
 Section Generic.
+  Variable P : Type.                          (* Point<T> *)
+  Variable peqb : P -> P -> bool.             (* operator== on Point<T> *)
   Variable D : Type.
-  Variable d2 : pt -> pt -> pt -> D.          (* PerpendicDistFromLineSqrd *)
+  Variable d2 : P -> P -> P -> D.             (* PerpendicDistFromLineSqrd *)
   Variable ltD leD : D -> D -> bool.          (* operator< and operator<= on double; a > b is ltD b a *)
   Variable dmax dzero : D.                    (* MAX_DBL, 0.0 *)
 
@@ -228,7 +230,7 @@ Section Generic.
     end.
 
   (* one iteration of the for(;;) loop of SimplifyPath *)
-  Definition simp_step (p : path) (high : nat) (closed : bool) (epsSqr : D)
+  Definition simp_step (p : list P) (high : nat) (closed : bool) (epsSqr : D)
              (flags : list bool) (dist : list D) (curr : nat) : res step_res :=
     dc <- rd dist curr ;;
     oc <- (if ltD epsSqr dc then simp_seek (S (S high)) curr curr high flags dist epsSqr
@@ -258,7 +260,7 @@ Section Generic.
       Ok (Continue flags dist curr)
     end.
 
-  Fixpoint simp_loop (fuel : nat) (p : path) (high : nat) (closed : bool) (epsSqr : D)
+  Fixpoint simp_loop (fuel : nat) (p : list P) (high : nat) (closed : bool) (epsSqr : D)
            (flags : list bool) (dist : list D) (curr : nat) : res (list bool) :=
     match fuel with
     | O => ErrFuel
@@ -271,7 +273,7 @@ Section Generic.
     end.
 
   (* for (size_t i = 1; i < high; ++i) distSqr[i] = PerpendicDistFromLineSqrd(path[i], path[i - 1], path[i + 1]); *)
-  Fixpoint simp_init_mid (n i : nat) (p : path) (dist : list D) : res (list D) :=
+  Fixpoint simp_init_mid (n i : nat) (p : list P) (dist : list D) : res (list D) :=
     match n with
     | O => Ok dist
     | S n' =>
@@ -280,7 +282,7 @@ Section Generic.
       simp_init_mid n' (S i) p dist
     end.
 
-  Definition simp_init (p : path) (closed : bool) : res (list D) :=
+  Definition simp_init (p : list P) (closed : bool) : res (list D) :=
     let len := length p in
     let high := len - 1 in
     let dist := repeat dzero len in
@@ -294,12 +296,12 @@ Section Generic.
     simp_init_mid (high - 1) 1 p dist.
 
   (* the flags at the end of SimplifyPath (len >= 3) *)
-  Definition simp_flags (p : path) (epsSqr : D) (closed : bool) : res (list bool) :=
+  Definition simp_flags (p : list P) (epsSqr : D) (closed : bool) : res (list bool) :=
     let len := length p in
     dist <- simp_init p closed ;;
     simp_loop (S len) p (len - 1) closed epsSqr (repeat false len) dist 0.
 
-  Definition simplify_gen (p : path) (epsSqr : D) (closed : bool) : res path :=
+  Definition simplify_gen (p : list P) (epsSqr : D) (closed : bool) : res (list P) :=
     let len := length p in
     if len <? 3 then Ok p else
     flags <- simp_flags p epsSqr closed ;;
@@ -307,19 +309,19 @@ Section Generic.
 
   (* ---- RDP ---- *)
   (* while (end > begin && path[begin] == path[end]) --end; *)
-  Fixpoint rdp_shrink (fuel : nat) (p : path) (begin end_ : nat) : res nat :=
+  Fixpoint rdp_shrink (fuel : nat) (p : list P) (begin end_ : nat) : res nat :=
     match fuel with
     | O => ErrFuel
     | S f =>
       if begin <? end_ then
         a <- rd p begin ;; b <- rd p end_ ;;
-        if pt_eqb a b then rdp_shrink f p begin (end_ - 1) else Ok end_
+        if peqb a b then rdp_shrink f p begin (end_ - 1) else Ok end_
       else Ok end_
     end.
 
   (* for (i = begin + 1; i < end; ++i) { d = PerpendicDistFromLineSqrd(path[i], path[begin], path[end]);
        if (d <= max_d) continue; max_d = d; idx = i; } *)
-  Fixpoint rdp_scan (n i : nat) (p : path) (begin end_ : nat) (idx : nat) (max_d : D) : res (nat * D) :=
+  Fixpoint rdp_scan (n i : nat) (p : list P) (begin end_ : nat) (idx : nat) (max_d : D) : res (nat * D) :=
     match n with
     | O => Ok (idx, max_d)
     | S n' =>
@@ -329,7 +331,7 @@ Section Generic.
       else rdp_scan n' (S i) p begin end_ i d
     end.
 
-  Fixpoint rdp (fuel : nat) (p : path) (begin end_ : nat) (epsSqr : D) (flags : list bool) : res (list bool) :=
+  Fixpoint rdp (fuel : nat) (p : list P) (begin end_ : nat) (epsSqr : D) (flags : list bool) : res (list bool) :=
     match fuel with
     | O => ErrFuel
     | S f =>
@@ -345,13 +347,13 @@ Section Generic.
     end.
 
   (* the flags computed by RamerDouglasPeucker (len >= 5) *)
-  Definition rdp_flags (p : path) (epsSqr : D) : res (list bool) :=
+  Definition rdp_flags (p : list P) (epsSqr : D) : res (list bool) :=
     let len := length p in
     flags <- upd (repeat false len) 0 true ;;
     flags <- upd flags (len - 1) true ;;
     rdp (S len) p 0 (len - 1) epsSqr flags.
 
-  Definition rdp_gen (p : path) (epsSqr : D) : res path :=
+  Definition rdp_gen (p : list P) (epsSqr : D) : res (list P) :=
     let len := length p in
     if len <? 5 then Ok p else
     flags <- rdp_flags p epsSqr ;;
@@ -368,14 +370,14 @@ Definition simp_eps_sqr (epsilon : float) : float :=
   if (HALF_MAX_DBL <? fsqr epsilon)%float then HALF_MAX_DBL else fsqr epsilon.
 
 Definition simplify_path (p : path) (epsilon : float) (closed : bool) : res path :=
-  simplify_gen float perp_d2 PrimFloat.ltb MAX_DBL 0%float p (simp_eps_sqr epsilon) closed.
+  simplify_gen pt float perp_d2 PrimFloat.ltb MAX_DBL 0%float p (simp_eps_sqr epsilon) closed.
 
 Definition rdp_path_flags (p : path) (epsilon : float) : res (list bool) :=
   if length p <? 5 then Ok (repeat true (length p))
-  else rdp_flags float perp_d2 PrimFloat.leb 0%float p (fsqr epsilon).
+  else rdp_flags pt pt_eqb float perp_d2 PrimFloat.leb 0%float p (fsqr epsilon).
 
 Definition rdp_path (p : path) (epsilon : float) : res path :=
-  rdp_gen float perp_d2 PrimFloat.leb 0%float p (fsqr epsilon).
+  rdp_gen pt pt_eqb float perp_d2 PrimFloat.leb 0%float p (fsqr epsilon).
 
 (* ------------------------------------------------------------------ StripDuplicates / StripNearEqual *)
 (* std::unique with operator== : keeps the first element of every run *)
@@ -584,13 +586,13 @@ Definition keeps_ends (out inp : path) : bool :=
   opt_pt_eqb (hd_pt out) (hd_pt inp) && opt_pt_eqb (last_pt out) (last_pt inp).
 
 (* cyclic triples (p[i-1], p[i], p[i+1]) for every i, n >= 1 *)
-Fixpoint triples_lin (l : path) : list (pt * pt * pt) :=
+Fixpoint triples_lin {A} (l : list A) : list (A * A * A) :=
   match l with
   | a :: ((b :: c :: _) as t) => (a, b, c) :: triples_lin t
   | _ => []
   end.
 
-Definition cyc_triples (p : path) : list (pt * pt * pt) :=
+Definition cyc_triples {A} (p : list A) : list (A * A * A) :=
   match p with
   | [] => []
   | a :: t => match t with
@@ -631,28 +633,30 @@ Definition corners_or_empty (p : path) : path :=
    through its two neighbours in the result, measured with the code's function, line end points in
    either order (the code itself uses both orders) *)
 Section FixSpec.
+  Variable P : Type.
   Variable D : Type.
-  Variable d2 : pt -> pt -> pt -> D.
+  Variable d2 : P -> P -> P -> D.
   Variable ltD : D -> D -> bool.
-  Definition far_enough (epsSqr : D) (t : pt * pt * pt) : bool :=
+  Definition far_enough (epsSqr : D) (t : P * P * P) : bool :=
     let '(a, b, c) := t in ltD epsSqr (d2 b a c) || ltD epsSqr (d2 b c a).
-  Definition simplify_fixed (out : path) (epsSqr : D) (closed : bool) : bool :=
+  Definition simplify_fixed (out : list P) (epsSqr : D) (closed : bool) : bool :=
     if closed then (length out <? 3) || forallb (far_enough epsSqr) (cyc_triples out)
     else forallb (far_enough epsSqr) (triples_lin out).
 End FixSpec.
 
 Definition simplify_fixed_f (out : path) (epsilon : float) (closed : bool) : bool :=
-  simplify_fixed float perp_d2 PrimFloat.ltb out (fsqr epsilon) closed.
+  simplify_fixed pt float perp_d2 PrimFloat.ltb out (fsqr epsilon) closed.
 
 (* RDP bound: for kept-index flags, every removed vertex i has d2 p[i] p[a] p[b] <= epsSqr where a, b are the
    nearest kept indices before and after i.  Returns the list of offending indices (removed vertices with no
    kept neighbour on one side are offending as well). *)
 Section BoundSpec.
+  Variable P : Type.
   Variable D : Type.
-  Variable d2 : pt -> pt -> pt -> D.
+  Variable d2 : P -> P -> P -> D.
   Variable leD : D -> D -> bool.
   (* walk with the last kept point so far; [pending] = removed vertices since then (index, point) *)
-  Fixpoint rdp_bad_aux (i : nat) (l : path) (fl : list bool) (lastk : option pt) (pending : list (nat * pt))
+  Fixpoint rdp_bad_aux (i : nat) (l : list P) (fl : list bool) (lastk : option P) (pending : list (nat * P))
            (epsSqr : D) : list nat :=
     match l, fl with
     | x :: l', f :: fl' =>
@@ -665,11 +669,11 @@ Section BoundSpec.
       else rdp_bad_aux (S i) l' fl' lastk (pending ++ [(i, x)]) epsSqr
     | _, _ => map fst pending
     end.
-  Definition rdp_bad (p : path) (fl : list bool) (epsSqr : D) : list nat := rdp_bad_aux 0 p fl None [] epsSqr.
+  Definition rdp_bad (p : list P) (fl : list bool) (epsSqr : D) : list nat := rdp_bad_aux 0 p fl None [] epsSqr.
 End BoundSpec.
 
 Definition rdp_bad_f (p : path) (fl : list bool) (epsilon : float) : list nat :=
-  rdp_bad float perp_d2 PrimFloat.leb p fl (fsqr epsilon).
+  rdp_bad pt float perp_d2 PrimFloat.leb p fl (fsqr epsilon).
 
 (* ------------------------------------------------------------------ sanity *)
 Example trim_ex1 : trim_collinear [(0,0);(5,0);(10,0);(10,10);(0,10)]%Z false = Ok [(0,0);(10,0);(10,10);(0,10)]%Z.
